@@ -304,10 +304,12 @@ class _Gen:
             return A.cmp(op, self.agg_expr(kind, elems, min(sub, 1)), self.literal(self.pick(['int', 'float'])))
         if choice == 'num':
             left = self.numeric(elems, sub)
+            if not self.p['lit_pred'] and not A.elements_of(left):
+                left = self.leaf(self.pick(['int', 'float']), elems, 1.0)
             right = self.literal(self.pick(['int', 'float'])) if self.pct(0.5) else self.numeric(elems, sub)
             return A.cmp(op, left, right)
         if choice == 'str':
-            return A.cmp(op, self.leaf('str', elems, 0.9), self.leaf('str', elems, 0.35))
+            return A.cmp(op, self.leaf('str', elems, 0.9 if self.p['lit_pred'] else 1.0), self.leaf('str', elems, 0.35))
         if choice == 'bool':
             return A.cmp(self.pick(['eq', 'ne']), self.leaf('bool', elems, 0.95), self.literal('bool'))
         if choice == 'date':
@@ -410,7 +412,7 @@ class _Gen:
             return feature
         return A.alias(feature, name)
 
-    def select_item(self, elems, used, grouped_keys=None):
+    def select_item(self, elems, used):
         """One free (non-aggregate) select item with an unused output name."""
         if self.pct(0.6) and elems:
             item = copy.deepcopy(self.pick([f for f, _ in elems]))
@@ -444,26 +446,21 @@ class _Gen:
         edepth = self.max_expr_depth - 1
         used = set()
         select, groupby = [], []
-        numeric_ok = True
         grouped = self.pct(0.24)
         if signature is not None:
-            kinds = [k for _, k in signature]
             if grouped:
-                nkeys = 0
                 for name, kind in signature:
                     make_key = kind not in A.NUMERIC or self.pct(0.4)
                     if make_key:
                         key = self.group_key(kind, elems, edepth)
                         groupby.append(key)
                         select.append(self.named(copy.deepcopy(key), name, used))
-                        nkeys += 1
                     else:
                         select.append(self.named(self.set_agg(kind, elems), name, used))
                 if not groupby:
                     grouped = False
             if not grouped:
                 select = [self.named(self.set_expr(k, elems, edepth), n, used) for n, k in signature]
-            del kinds
         elif grouped:
             nkeys = self.weighted([(70, 1), (30, 2)])
             for _ in range(nkeys):
@@ -492,7 +489,6 @@ class _Gen:
                     part = copy.deepcopy(self.pick([f for f, _ in elems]))
                     fn = {'f': 'rownumber'} if self.pct(0.5) else A.agg('count', copy.deepcopy(part))
                     select.append(A.alias(A.win(fn, [part]), self.alias_name()))
-        del numeric_ok
         where = self.pred(elems, self.weighted([(45, 1), (40, 2), (15, min(3, edepth))])) if self.pct(0.55) else None
         having = None
         if grouped and self.pct(0.45):
@@ -623,11 +619,9 @@ def features(node) -> set:
             tags.add({'inner': 'inner-join', 'cross': 'cross-join'}.get(sub['kind'], 'outer-join'))
             if sub['left']['t'] == 'join' or sub['right']['t'] == 'join':
                 tags.add('multi-join')
-            ltabs = set(A.tables_of(sub['left']))
             for side, other in ((sub['right'], sub['left']), (sub['left'], sub['right'])):
                 if side['t'] == 'ref' and side['src']['t'] == 'table' and side['src']['name'] in A.tables_of(other):
                     tags.add('self-join')
-            del ltabs
             if sub.get('cond') is not None:
                 _pred_tags(sub['cond'], tags)
                 if sub['cond']['f'] != 'cmp' or sub['cond']['op'] != 'eq':
